@@ -21,8 +21,8 @@ from mc.core import proc
 
 PROPERTY = "C20"
 LEVEL = "model_checking"
-RULE = ("states = distinct budget trees reachable from 16 initial trees by <= D commands (D=3 quick, 6 thorough or fixpoint); transitions = "
-        "(tree, command) pairs over 14 commands, each executed by the real CLI in a forked process; invariant per transition = frame condition "
+RULE = ("states = distinct budget trees reachable from 17 initial trees by <= D commands (D=3 quick, 6 thorough or fixpoint); transitions = "
+        "(tree, command) pairs over 16 commands, each executed by the real CLI in a forked process; invariant per transition = frame condition "
         "of the property for that command class (read-only / init / explicit migration)")
 ASSUMPTIONS = ["commands run non-interactively: stdin=/dev/null, stdout/stderr not a tty",
                "bytes of files tally itself creates, and the contents of the output location, are not judged",
@@ -63,6 +63,9 @@ INITIAL = {
                                       "config/merchant_categories.csv.bak": OLD_BAK, "config/merchants.rules": OLD_RULES, "data/s.csv": STMT}),
     "legacy-csv-and-bak": _old({"config/settings.yaml": SETTINGS_BARE, "config/merchant_categories.csv": CSV_RULES,
                                 "config/merchant_categories.csv.bak": OLD_BAK, "data/s.csv": STMT}),
+    # a second settings file (other year, own comment, no merchants_file entry) next to the main one, legacy CSV rules
+    "legacy-csv-two-settings": _old({"config/settings.yaml": SETTINGS_BARE, "config/card.yaml": "# card only\n" + SETTINGS_BARE.replace("year: 2025", "year: 2024\ntitle: Card"),
+                                     "config/merchant_categories.csv": CSV_RULES, "data/s.csv": STMT}),
     "rules-unreferenced": _old({"config/settings.yaml": SETTINGS_BARE, "config/merchants.rules": RULES, "data/s.csv": STMT}),
     # settings name a views file that does not exist (read-only commands must not create it)
     "old-views-dangling": _old({"config/settings.yaml": SETTINGS_FULL, "config/merchants.rules": RULES, "data/s.csv": STMT}),
@@ -89,8 +92,10 @@ COMMANDS = [
     ("diag", ["diag"]), ("inspect", ["inspect", "@STMT"]), ("init", ["init"]), ("init-dir", ["init", "sub"]), ("up-migrate", ["up", "--migrate"]),
     # the same run started from INSIDE the config directory with an explicit relative path
     ("up-in-config", ["up", "."]),
+    # a run under a second settings file of the config directory, alone and together with the rule migration
+    ("up-alt-settings", ["up", "--settings", "card.yaml"]), ("up-migrate-alt-settings", ["up", "--settings", "card.yaml", "--migrate"]),
 ]
-READ_ONLY = {"up-in-config", "up", "up-json", "up-summary", "up-no-embed", "explain", "explain-merchant", "discover", "discover-json", "diag", "inspect"}
+READ_ONLY = {"up-alt-settings", "up-in-config", "up", "up-json", "up-summary", "up-no-embed", "explain", "explain-merchant", "discover", "discover-json", "diag", "inspect"}
 
 
 def is_output(path):
@@ -162,7 +167,7 @@ def frame_violations(cmd_name, before, after):
             v.append(("user-file-removed", p))
         else:
             v.append(("user-file-overwritten", p))
-    if cmd_name == "up-migrate":
+    if cmd_name in ("up-migrate", "up-migrate-alt-settings"):
         # the migration must leave the original rules as a backup
         for p, b in before.items():
             if p.endswith("merchant_categories.csv") and p not in after and not _backed_up(p, b, before, after):
